@@ -13,6 +13,13 @@ Four exhaustive families (PRODX), all on the real implementation:
              plain), and before/after every await of every node of a 7-node binary tree under every combination of
              blocking / list-vs-tuple yield.  Oracle: one entry per task level, outermost first, entry i naming the
              function of level i; None outside any task.
+ handoff (b) the same probes in hand-off chains: every link level k -> k+1 is one of {a: created and awaited by level k,
+             w: created by level k, awaited by a helper task while level k stays suspended, m: created by a maker task
+             that has FINISHED when the child runs, u: created by level k which returns it un-awaited and has FINISHED
+             when its awaiter (parent level / helper / harness) runs it} - every assignment of link kinds x every
+             blocking subset x every probe position (also inside the helper tasks); and hand-off trees (every inner
+             node awaits / hands to a helper / returns un-awaited its children x every blocking subset).  Oracle: the
+             CREATING chain (not the awaiting chain), outermost first, finished creators included.
  filter  (c) filter_traceback on EVERY list of <= N lines over 12 lines: one representative per distinct pattern string
              used by filter_traceback (11; several are substrings of others) + one foreign line.  Oracle: re-parse of
              the output against the input per the statement (reference written from the spec, not from the code).
@@ -30,7 +37,12 @@ ENGINE = "PRODX"
 BUILDS = ("pure", "compiled")
 RULE = ("(a) every chain of generated @asynq tasks of depth <= 6 (quick) / 10 (thorough): blocking subset x raise level x "
         "statement position x handler kind and level; (b) format_asynq_stack at every position of every level of such "
-        "chains and in every node of a 7-node tree under all 1024 blocking/yield-shape configurations; (c) every list of "
+        "chains and in every node of a 7-node tree under all 1024 blocking/yield-shape configurations, and in hand-off "
+        "chains where each link is created-and-awaited / created here but awaited by a helper task (creator suspended) / "
+        "created by a maker task that has finished / returned un-awaited by a creator that has finished: every link "
+        "assignment x blocking subset x probe position (incl. helper tasks) up to depth 4 (quick) / 5 (thorough), "
+        "innermost-level and helper probes only at depth 5 (quick) / 6 (thorough), plus 26 x 128 hand-off trees - the "
+        "oracle is the creating chain, finished creators included; (c) every list of "
         "<= 7 (quick) / <= 8 (thorough) lines over the 12-line alphabet (11 distinct boilerplate pattern strings + "
         "foreign), thorough additionally every 9-line list over the 8 lines relevant to the 8-line pattern; (d) every "
         "(object kind, lifecycle state, operation) cell of the state registry under 2 option sets and every "
@@ -55,8 +67,9 @@ ASSUMPTIONS = [
 ]
 
 BOUNDS = {
-    "quick": {"D": 6, "N": 7, "N9": False},
-    "thorough": {"D": 10, "N": 8, "N9": True},
+    # DH: hand-off chains with every probe position up to this depth; DH + 1: innermost-level and helper probes only
+    "quick": {"D": 6, "N": 7, "N9": False, "DH": 4},
+    "thorough": {"D": 10, "N": 8, "N9": True, "DH": 5},
 }
 MAX_VIOL_PER_JOB = 10
 
@@ -371,6 +384,94 @@ def judge_chain(names):
     return out
 
 
+def handoff_cases(d, links, blocks, innermost_only):
+    """(names, helper probe) for every probe of one hand-off chain: links[k] in 'awmu' for k < d-1"""
+    from ..diag import fn_name, hfn_name, chain_positions, handoff_positions
+
+    def names_for(pk, pj):
+        out = []
+        for i in range(d):
+            role = ("q%d" % pj) if i == pk else "p"
+            if i == d - 1:
+                out.append(fn_name(i, True, blocks[i], role))
+            else:
+                out.append(hfn_name(i, blocks[i], links[i], role))
+        return out
+
+    for k in range(d):
+        if innermost_only and k != d - 1:
+            continue
+        n = chain_positions(True, blocks[k]) if k == d - 1 else handoff_positions(blocks[k], links[k])
+        for j in range(n):
+            yield names_for(k, j), None
+    plain = names_for(-1, 0)
+    for k in range(d - 1):
+        if links[k] == "w":
+            yield plain, ["W", k]
+        elif links[k] == "m":
+            yield plain, ["M", k]
+
+
+def creating_chain(names, infos, upto):
+    out = []
+    for i in range(upto + 1):
+        out.append(names[i])
+        if i < upto and infos[i].get("link") == "m":
+            out.append("M%d" % i)
+    return out
+
+
+def judge_handoff(names, hprobe):
+    d = len(names)
+    cm = chain_module(d)
+    infos = [cm.info[n] for n in names]
+    if hprobe:
+        kind, k = hprobe[0], int(hprobe[1])
+        exp = creating_chain(names, infos, k) + ["%s%d" % (kind, k)]
+        where = "helper %s%d" % (kind, k)
+        level = k
+    else:
+        level = [i for i, inf in enumerate(infos) if inf["role"][0] == "q"][0]
+        exp = creating_chain(names, infos, level)
+        where = "level %d" % level
+    links = "".join(inf.get("link", "") for inf in infos)
+    finished = sum(1 for i, inf in enumerate(infos[:level]) if inf.get("link") in ("m", "u"))
+    feats = ["family:stack", "handoff", "depth:%d" % d, "level:%d" % level, "links:" + links,
+             "finished-creators:%d" % finished]
+    val, exc, frames, stacks = cm.run_chain(names, hprobe)
+    if exc is not None:
+        return [("harness", "hand-off chain %s raised %r" % (names, exc), feats)]
+    if len(stacks) != 1:
+        return [("harness", "hand-off chain %s (probe %s) recorded %d stacks" % (names, where, len(stacks)), feats)]
+    st = stacks[0]
+    if st.__class__ is not list or len(st) != len(exp):
+        return [("asynq-stack", "format_asynq_stack() inside %s of hand-off chain %s returned %d entries, expected the "
+                 "creating chain %r: %r" % (where, names, len(st) if st is not None else -1, exp, st), feats)]
+    for i, fn in enumerate(exp):
+        if not isinstance(st[i], str):
+            return [("asynq-stack", "hand-off chain %s: entry %d is %r" % (names, i, st[i]), feats)]
+        inf = cm.info[fn]
+        if not inf.get("generator", not (inf["leaf"] and inf["blk"] == "d")):
+            continue  # function without yield: asynq shows its own wrapper generator's frame (see judge_chain)
+        if not _names_word(st[i], fn):
+            return [("asynq-stack", "format_asynq_stack() inside %s of hand-off chain %s: entry %d does not name %s "
+                     "(creating chain %r): %r" % (where, names, i, fn, exp, st), feats)]
+    return []
+
+
+def htree_configs():
+    """hand-off trees: every inner node awaits (0) / hands to a helper (1) / returns un-awaited (2) its children, at least
+    one node not 0; x every subset of nodes that block first"""
+    from ..diag import ChainModule
+    order = ChainModule.TREE_ORDER
+    inner = [n for n in order if ChainModule.TREE[n]]
+    for lk in itertools.product((0, 1, 2), repeat=len(inner)):
+        if not any(lk):
+            continue
+        for bits in itertools.product((0, 1), repeat=len(order)):
+            yield dict(zip(order, bits)), dict(zip(inner, lk))
+
+
 TREE_CFG_BITS = None
 
 
@@ -383,18 +484,26 @@ def tree_configs():
         yield dict(zip(order, combo))
 
 
-def judge_tree(cfg):
+def judge_tree(cfg, link=None):
     cm = chain_module(1)
-    feats = ["family:stack", "tree"]
+    link = link or {}
+    blk = cfg
+    feats = ["family:stack", "tree"] + (["handoff"] if link else [])
+    if link:
+        cfg = (blk, link)  # for the messages
     try:
-        stacks = cm.run_tree(cfg)
+        stacks = cm.run_tree(blk, link)
     except Exception as e:
         return [("harness", "tree %r raised %r" % (cfg, e), feats)], 0
-    exp_count = sum(1 + (1 if cfg[n] & 1 else 0) + (1 if cm.TREE[n] else 0) for n in cm.TREE_ORDER)
+    exp_count = sum(1 + (1 if blk[n] & 1 else 0) + (1 if cm.TREE[n] and link.get(n, 0) != 2 else 0)
+                    + (1 if link.get(n, 0) == 1 else 0) for n in cm.TREE_ORDER)
     if len(stacks) != exp_count:
         return [("harness", "tree %r recorded %d stacks, expected %d" % (cfg, len(stacks), exp_count), feats)], len(stacks)
     for name, phase, st in stacks:
-        path = cm.tree_path(name)
+        if name.startswith("TW:"):
+            path = cm.tree_path(name[3:]) + ["TW"]
+        else:
+            path = cm.tree_path(name)
         if st.__class__ is not list or len(st) != len(path):
             return [("asynq-stack", "tree %r: format_asynq_stack() in node %s (phase %d) returned %r, expected one entry per "
                      "task of %r" % (cfg, name, phase, st, path), feats + ["level:%d" % (len(path) - 1)])], len(stacks)
@@ -544,6 +653,14 @@ def jobs(tier, seed):
         if step == 2:
             for lo in tree:
                 yield {"fam": "tree", "lo": lo, "hi": lo + 64}
+            for lo in range(0, 26 * 128, 64):
+                yield {"fam": "htree", "lo": lo, "hi": lo + 64}
+        if 2 <= d <= b["DH"] + 1:
+            inner = d > b["DH"]
+            nl = 4 ** (d - 1)
+            per = max(1, 2500 // ((2 ** d) * ((4 if inner else 5 * d) + d)))
+            for lo in range(0, nl, per):
+                yield {"fam": "handoff", "d": d, "lo": lo, "hi": min(nl, lo + per), "inner": inner}
         n = step
         if n <= b["N"]:
             if n == 1:
@@ -605,6 +722,44 @@ def run(job, env):
         diag.bump(res, "chains:%s:depth%d" % (fam, d), n)
         if not res["samples"] and fam == "tb" and d >= 3:
             res["samples"].append({"family": fam, "chain": names})
+        return res
+    if fam == "handoff":
+        from ..diag import LINKS
+        d = job["d"]
+        n = 0
+        for li in range(job["lo"], job["hi"]):
+            links = [LINKS[(li >> (2 * k)) & 3] for k in range(d - 1)]
+            for bi in range(2 ** d):
+                blocks = _blocks(d, bi)
+                for names, hp in handoff_cases(d, links, blocks, job["inner"]):
+                    n += 1
+                    if n & 0x7F == 0:
+                        hb[0] = time.time()
+                        hb[2] = n
+                    for v in judge_handoff(names, hp):
+                        _add(res, v, {"fam": "handoff", "names": names, "hprobe": hp})
+                    res["transitions"] += d
+                    if any(x != "a" for x in links):
+                        res["nontrivial"] += 1
+        res["evals"] += n
+        res["states"] += n
+        diag.bump(res, "chains:handoff", n)
+        diag.bump(res, "chains:handoff:depth%d%s" % (d, ":innermost+helpers" if job["inner"] else ""), n)
+        if not res["samples"] and d >= 3 and job["lo"] > 0:
+            res["samples"].append({"family": "handoff", "chain": names, "helper probe": hp})
+        return res
+    if fam == "htree":
+        cfgs = list(itertools.islice(htree_configs(), job["lo"], job["hi"]))
+        for blk, link in cfgs:
+            hb[0] = time.time()
+            vs, nprobes = judge_tree(blk, link)
+            for v in vs:
+                _add(res, v, {"fam": "htree", "cfg": blk, "link": link})
+            res["evals"] += 1
+            res["states"] += 1
+            res["transitions"] += nprobes
+            res["nontrivial"] += 1
+        diag.bump(res, "handoff_tree_configs", len(cfgs))
         return res
     if fam == "tree":
         cfgs = list(tree_configs())[job["lo"]:job["hi"]]
@@ -679,6 +834,12 @@ def replay(case, env):
         return [{"sig": v[0], "msg": v[1], "features": v[2], "case": case} for v in judge_chain(case["names"])]
     if fam == "tree":
         return [{"sig": v[0], "msg": v[1], "features": v[2], "case": case} for v in judge_tree(case["cfg"])[0]]
+    if fam == "htree":
+        return [{"sig": v[0], "msg": v[1], "features": v[2], "case": case}
+                for v in judge_tree(case["cfg"], case["link"])[0]]
+    if fam == "handoff":
+        return [{"sig": v[0], "msg": v[1], "features": v[2], "case": case}
+                for v in judge_handoff(case["names"], case.get("hprobe"))]
     if fam == "outside":
         return [{"sig": v[0], "msg": v[1], "features": v[2], "case": case} for v in judge_outside()]
     if fam == "state":
@@ -699,5 +860,7 @@ def finish(acc, tier):
                                   "half of the slices is missing?)" % (got, want))
     return {"bounds": {"chain depth": b["D"], "filter list length": b["N"], "filter alphabet": NSYM,
                        "filter lists": want, "9-line lists over the 8-line-pattern sub-alphabet": b["N9"],
-                       "tree configurations": 1024, "option sets for the state matrix": OPTSETS,
+                       "tree configurations": 1024, "hand-off tree configurations": 26 * 128,
+                       "hand-off chain depth (all probes)": b["DH"],
+                       "hand-off chain depth (innermost + helper probes)": b["DH"] + 1, "option sets for the state matrix": OPTSETS,
                        "operations": ["str", "repr", "format", "dump", "dump_indent", "debug.str", "debug.repr"]}}
